@@ -727,6 +727,7 @@ def gen_setup_client(rng, knobs=None):
         opts['honor_lease_c'] = True
     if rng.random() < 0.3:
         opts['client_lease_publisher'] = True       # (independent of whether the client honours leases)
+    opts['mime_as'] = rng.choice(['bytes', 'bytes', 'str', 'enum'])
     prog = [['start_noconnect']]
     # requests issued concurrently with connect(): before it, and after 0..3 loop iterations of it
     steps = []
